@@ -67,6 +67,19 @@ def one_case(src, hexe, mexe, idx, seed, tier):
     bs = int(opts[opts.index("-b") + 1])
     nfiles = 2
     ops = gen_ops(r, bs, nfiles, r.randint(10, 40 if tier == "quick" else 120), inline, inline_sz=(idx // len(CONFIGS)) % 3 == 2)
+    return execute(src, hexe, mexe, name, opts, ops, idx)
+
+
+def execute(src, hexe, mexe, name, opts, ops, idx):
+    inline = "inline" in name
+    img = os.path.join(WORK, "f_%d.img" % idx)
+    env = e2v.tool_env(src)
+    T = lambda p: os.path.join(src, p)
+    if os.path.exists(img):
+        os.unlink(img)
+    rc, out = e2v.sh([T("misc/mke2fs"), "-q", "-F"] + opts + [img, "16M"], env=env, timeout=120)
+    bs = int(opts[opts.index("-b") + 1])
+    nfiles = 2
     # ---- run the implementation
     hl = ["OPEN " + img] + ["NEW file%d" % f for f in range(nfiles)]
     p = subprocess.run([hexe], input=("\n".join(hl) + "\n").encode(), stdout=subprocess.PIPE, timeout=120)
@@ -116,7 +129,7 @@ def one_case(src, hexe, mexe, idx, seed, tier):
     hout = p.stdout.decode().split("\n")
     mout = subprocess.run([mexe], input=("\n".join(ml) + "\n").encode(), stdout=subprocess.PIPE, timeout=900).stdout.decode().split("\n")
     problems = []
-    recipe = {"config": name, "mke2fs": opts, "ops": [m for _, m in ops if m][:60], "case_index": idx}
+    recipe = {"config": name, "mke2fs": opts, "ops": [m for _, m in ops if m][:60], "all_ops": [[h, m] for h, m in ops], "case_index": idx}
     if p.returncode != 0:
         problems.append("the harness died (exit %d, %s)" % (p.returncode, p.stderr.decode()[-200:]))
         return recipe, problems, {}
@@ -163,6 +176,81 @@ def one_case(src, hexe, mexe, idx, seed, tier):
     return recipe, problems, {"reads": nread, "nops": len(ops)}
 
 
+def large_case(src, hexe, idx, seed):
+    """files reaching the double-indirect range / several extent leaves; the reference here is a Python bytearray
+    (the extracted reference works on unary byte lists and is kept for files up to 45 blocks)"""
+    r = e2v.rng(seed, "c09L", idx)
+    name, opts = [CONFIGS[2], CONFIGS[0], CONFIGS[3]][idx % 3]
+    bs = int(opts[opts.index("-b") + 1])
+    img = os.path.join(WORK, "L_%d.img" % idx)
+    env = e2v.tool_env(src)
+    if os.path.exists(img):
+        os.unlink(img)
+    e2v.sh([os.path.join(src, "misc/mke2fs"), "-q", "-F"] + opts + [img, "24M"], env=env, timeout=120)
+    ref = bytearray()
+    apb = bs // 4
+    marks = [0, 11, 12, 13, 12 + apb - 1, 12 + apb, 12 + apb + 1, 12 + apb + 300, 12 + 2 * apb, 12 + 2 * apb + 44, 12 + 3 * apb + 7]
+    top = (12 + 3 * apb + 40)
+    hl = ["OPEN " + img, "NEW big", "FO 0 @INO"]
+    ops = []
+    for _ in range(r.randint(6, 25)):
+        k = r.random()
+        if k < 0.55:
+            b = r.choice(marks) + r.choice([0, 0, 1, 2]) if r.random() < 0.7 else r.randint(0, top)
+            off = b * bs + r.choice([0, 0, 1, bs - 3])
+            data = r.randbytes(r.choice([1, 100, bs, bs + 5, 2 * bs]))
+            hl += ["S 0 %d" % off, "W 0 %s" % data.hex()]
+            if len(ref) < off:
+                ref.extend(bytes(off - len(ref)))
+            ref[off:off + len(data)] = data
+            ops.append("write %d bytes at block %d+%d" % (len(data), off // bs, off % bs))
+        elif k < 0.85:
+            a = r.choice(marks) + r.choice([0, 1, 3]) if r.random() < 0.7 else r.randint(0, top)
+            b = a + r.choice([0, 1, 9, 40, apb, 2 * apb + 3])
+            hl += ["FL 0", "P @INO %d %d" % (a, b), "FC 0", "FO 0 @INO"]
+            lo, hi = min(a * bs, len(ref)), min((b + 1) * bs, len(ref))
+            ref[lo:hi] = bytes(hi - lo)
+            ops.append("punch blocks %d..%d" % (a, b))
+        else:
+            s_ = r.choice(marks) * bs + r.choice([0, 1, 700])
+            hl += ["SZ 0 %d" % s_]
+            if s_ < len(ref):
+                del ref[s_:]
+            else:
+                ref.extend(bytes(s_ - len(ref)))
+            ops.append("set size %d" % s_)
+    hl += ["S 0 0", "GS 0", "R 0 %d" % (len(ref) + 10), "FC 0", "CLOSE"]
+    cp = img + ".probe"
+    shutil.copy(img, cp)
+    p = subprocess.run([hexe], input=("OPEN %s\nNEW big\n" % cp).encode(), stdout=subprocess.PIPE, timeout=120)
+    ino = [int(l.split()[1]) for l in p.stdout.decode().split("\n") if l.startswith("INO")][0]
+    os.unlink(cp)
+    p = subprocess.run([hexe], input=("\n".join(hl) + "\n").replace("@INO", str(ino)).encode(), stdout=subprocess.PIPE, timeout=600)
+    out = p.stdout.decode().split("\n")
+    problems = []
+    reads = [l for l in out if l.startswith("R ")]
+    errs = [l for l in out if re.match(r"(W \d+ [1-9]|SZ [1-9]|FO [1-9]|FC [1-9]|P [1-9]|FL [1-9]|OPEN [1-9]|CLOSE [1-9])", l)]
+    if p.returncode != 0 or errs or not reads:
+        problems.append("operation failed / harness died: rc %d %s" % (p.returncode, errs[:2]))
+    else:
+        got = bytes.fromhex(reads[-1][2:].strip())
+        if got != bytes(ref):
+            first = next((i for i in range(min(len(got), len(ref))) if got[i] != ref[i]), min(len(got), len(ref)))
+            problems.append("final read returns %d bytes, the reference has %d; first difference at byte %d (block %d)" % (len(got), len(ref), first, first // bs))
+        rc, o = e2v.sh([os.path.join(src, "e2fsck/e2fsck"), "-fn", img], env=env, timeout=300)
+        if rc != 0 and not problems:
+            problems.append("e2fsck -fn exits %d: %s" % (rc, " | ".join(l for l in o.split("\n") if "?" in l or "should be" in l)[:200]))
+        if not problems:
+            try:
+                if Fs(img).file_data(ino) != bytes(ref):
+                    problems.append("content on disk differs from the reference")
+            except (FormatError, struct.error) as ex:
+                problems.append("independent reader: %s" % ex)
+    if os.path.exists(img):
+        os.unlink(img)
+    return {"config": name, "mke2fs": opts, "ops": ops, "large": True, "case_index": idx}, problems, {"nops": len(ops), "reads": 1}
+
+
 def run(res, replay=None):
     tier, seed = res.tier, res.seed
     os.makedirs(WORK, exist_ok=True)
@@ -181,6 +269,8 @@ def run(res, replay=None):
     idxs = [json.load(open(replay))["recipe"]["case_index"]] if replay else list(range(n))
     with concurrent.futures.ThreadPoolExecutor(12) as ex:
         outs = list(ex.map(lambda i: one_case(src, hexe, mexe, i, seed, tier), idxs))
+        if not replay:
+            outs += list(ex.map(lambda i: large_case(src, hexe, i, seed), range(9 if tier == "quick" else 600)))
     bad = []
     reads = ops = 0
     for recipe, problems, st in outs:
